@@ -100,6 +100,7 @@ def check(case, ctx):
     before = [G.snapshot(e) for e in elems]
     read_before = rng.random() < 0.5
     input_views = None
+    kept_w = None
     if read_before:
         if case['container']:
             input_views = {'evalpts': [list(p) for p in obj.evalpts]}
@@ -107,7 +108,8 @@ def check(case, ctx):
             obj.sample_size = {1: 6, 2: 4, 3: 3}[pdim]
             input_views = {'evalpts': [list(p) for p in obj.evalpts], 'ctrlpts': [list(p) for p in obj.ctrlpts]}
             if obj.rational:
-                input_views['weights'] = list(obj.weights)
+                kept_w = obj.weights                    # the caller keeps the list it was handed: "weights unchanged" is read off it later
+                input_views['weights'] = list(kept_w)
         if case['inplace']:
             ctx.tag('read-before-inplace')
     if case['container'] and len(elems) > 1 and rng.random() < 0.5:
@@ -206,5 +208,9 @@ def check(case, ctx):
                                                 all(abs(x - y) <= 1e-12 * max(1.0, abs(y)) for x, y in zip(a, b_)) for a, b_ in zip(now, old))
             ctx.check(same, 'copy/input-views-changed', '%s(inplace=False): %s of the INPUT changed after transforming / reading the copy'
                       % (op, nm), what='inplace-semantics')
+    if kept_w is not None:
+        ctx.check(list(kept_w) == input_views['weights'], 'weights-changed/kept-list-emptied', '%s(inplace=%s): the weights list handed out before the '
+                  'transformation now reads %r (was %d weights)' % (op, case['inplace'], list(kept_w)[:4], len(input_views['weights'])),
+                  what='weights-unchanged')
     interior = any(len(kv) > 2 * (p + 1) for sd in sds for kv, p in zip(sd['kvs'], sd['degrees']))
     ctx.nontriv(nontrivial_map and (interior or any(sd['rational'] for sd in sds)))
